@@ -343,6 +343,58 @@ func runH5Writers(t *testing.T, vt *vhT) {
 	}()
 	vt.Flush()
 
+	// Dial waiting for its CreatePermission answer while Close runs: no Connect behind the Refresh(0)
+	func() {
+		vt.OpSync("trace dial-vs-close")
+		w, err := newH5DelayWorld(60 * time.Second)
+		if err != nil {
+			vt.Alarm("h5-setup", "delay world: %v", err)
+			vt.Obs("ok")
+
+			return
+		}
+		a, err := w.c.AllocateTCP()
+		if err != nil {
+			vt.Alarm("h5-setup", "AllocateTCP: %v", err)
+			vt.Obs("ok")
+			w.shutdown()
+
+			return
+		}
+		w.take()
+		w.mu.Lock()
+		w.rx = []h5Rx{{0, 150 * ms}}
+		w.t0 = time.Now()
+		w.mu.Unlock()
+		done := make(chan error, 1)
+		go func() {
+			_, err := a.DialTCPWithConn(nil, "tcp", &net.TCPAddr{IP: net.IPv4(10, 0, 0, 9), Port: 9000})
+			done <- err
+		}()
+		time.Sleep(50 * ms)
+		_ = a.Close()
+		time.Sleep(600 * ms)
+		wire := w.take()
+		closedAt := -1
+		for i, l := range wire {
+			if strings.HasSuffix(l, "rf 0") {
+				closedAt = i
+			}
+		}
+		if closedAt >= 0 {
+			for _, l := range wire[closedAt+1:] {
+				if strings.HasSuffix(l, " connect") {
+					vt.Alarm("dial-after-close-emits", "a Dial that was waiting for its permission when Close ran sent a Connect after the Refresh(0): %v", wire)
+
+					break
+				}
+			}
+		}
+		w.shutdown()
+		vt.Obs("ok")
+	}()
+	vt.Flush()
+
 	// Dial on a closed TCP allocation
 	func() {
 		vt.OpSync("trace dial-after-close")
